@@ -6,6 +6,7 @@ func init() {
 	register(&propDef{id: "C13", run: runC13, controls: controlsC13})
 	register(&propDef{id: "C14", run: runC14, controls: func(cp *Prog, r *Report) {
 		expectControl(r, "R-INV", func(cr *Report) { controlsInv(cp, cr) }, "Obj.cache/reset()/(*cache.Obj).SetPpemBad/ppem", "Obj.cache/reset()/(*cache.Obj).SetScaleBad/scale", "Obj.cand/built = false/(*cache.Obj).AddBad/db")
+		expectControl(r, "R-ALIASCMP", func(cr *Report) { ruleAliasCompare(cp, cr, []string{"cache"}, 2) }, "(*cache.view).SetBad(c) -> coords")
 		expectControl(r, "R-SCRATCH", func(cr *Report) {
 			ruleScratchReset(cp, cr, "cache", "matcher", "scratch", "reset", 2)
 			ruleScratchReset(cp, cr, "cache", "matcher", "pool", "reset", 1)
@@ -56,6 +57,8 @@ func runC13(p *Prog, r *Report) {
 	r.Explain = append(r.Explain, "R-KEY/owned: the shape plan stored in Buffer.planCache is initialised by shapePlan.init in copy mode, so its key fields do not alias slices the caller may overwrite.")
 	ruleCacheOwned(p, r, "harfbuzz", "Buffer", "newShapePlanCached", "Buffer", "planCache", "shapePlan", "init", 1)
 	ruleInv(p, r, invFaceExtents())
+	r.Explain = append(r.Explain, "R-ALIASCMP: a method that keeps a slice- or map-holding parameter as it is in a field of its receiver (the field then aliases the caller's storage) does not compare the parameter with that field to decide that nothing has changed and skip what it does on a change: edited in place and passed again, the storage is compared with itself.")
+	ruleAliasCompare(p, r, []string{"font", "fontscan", "shaping", "harfbuzz", "segmenter"}, 3)
 	r.Explain = append(r.Explain, "R-STATE: with P-FX (per-function exposed-read / must-write sets over struct fields, fixpoint over the VTA call graph), every field of the state-holding types of each reusable object that an entry method may read before writing it is classified with a reason; continuation methods may also read what the required initialiser writes on all its paths.")
 	r.Explain = append(r.Explain, "R-STALE: storage kept in a slice-typed field is re-extended past its current length in place (x.f = x.f[:n] after consulting cap(x.f)) only where the exposed elements are overwritten whole by copy() or cleared, or for the fields listed with the reason confirmed by reading; everywhere else growth goes through append or make, which hand out zeroed elements, so a reused object does not see the elements of its previous use.")
 	ruleStale(p, r, staleAllowed, 0)
@@ -129,6 +132,8 @@ func runC14(p *Prog, r *Report) {
 	r.Explain = append(r.Explain, "R-SCRATCH: R-INV exempts FontMap.cribleBuffer and FontMap.footprintsBuffer as scratch storage 'reset by each selection'; that claim is checked: every function that receives one of them as an argument calls its reset method on it before any other use of it, on every path, or only hands it to a function that does (or drops it for a fresh value).")
 	ruleScratchReset(p, r, "fontscan", "FontMap", "cribleBuffer", "reset", 2)
 	ruleScratchReset(p, r, "fontscan", "FontMap", "footprintsBuffer", "reset", 2)
+	r.Explain = append(r.Explain, "R-ALIASCMP (see C13): FontMap.SetQuery keeps the caller's query (its Families slice) and does not compare the new query with it to skip the invalidation.")
+	ruleAliasCompare(p, r, []string{"fontscan"}, 1)
 	r.Explain = append(r.Explain,
 		"R-KEY/hash: the rune LRU key hashes the query families; runeLRU.Get returns a hit only on the equal edge of an exact comparison of those families.",
 		"R-STEPS: on ResolveFace's miss path buildCandidates runs first and the four documented searches (exact families, fallbacks, manual fonts, script coverage) occur in that order on every path, each returning the face it finds before a later step; every path of buildCandidates that marks the candidates as built has run the substitution pass, the user-font pass and the aspect narrowing.")
@@ -141,6 +146,7 @@ func runC14(p *Prog, r *Report) {
 
 func controlsC13(cp *Prog, r *Report) {
 	controlsState(cp, r)
+	expectControl(r, "R-ALIASCMP", func(cr *Report) { ruleAliasCompare(cp, cr, []string{"cache"}, 2) }, "(*cache.view).SetBad(c) -> coords")
 	expectControl(r, "R-STATE/array", func(cr *Report) {
 		ruleArrayReset(cp, cr, "reuse", "abuf", "ctx", fnRef{"reuse", "abuf", "Clear"})
 		ruleArrayReset(cp, cr, "reuse", "abufBad", "ctx", fnRef{"reuse", "abufBad", "Clear"})
